@@ -451,6 +451,15 @@ class Check:
             "coverage": cov, "assumptions": self.assumptions, "wall_s": round(wall, 2),
             "violations": len(self.violations),
         }
+        # keys the evidence schema types: a check that put something else there (e.g. a dict under
+        # `exhaustive`) would make the whole file invalid — move such values aside
+        types = {"evaluations": int, "distinct_nontrivial": int, "rule": str, "samples": list, "states": int,
+                 "transitions": int, "traces_validated_against_impl": int, "obligations": int, "discharged": int,
+                 "checker_cmd": str, "trusted_base": list, "programs": int, "disagreements_checked": int,
+                 "explanation": str, "exhaustive": bool}
+        for k, ty in types.items():
+            if k in cov and (not isinstance(cov[k], ty) or (ty is int and isinstance(cov[k], bool))):
+                cov[k + "_detail"] = cov.pop(k)
         os.makedirs(os.path.join(OUT_ROOT, "evidence"), exist_ok=True)
         with open(os.path.join(OUT_ROOT, "evidence", self.prop + ".json"), "w") as f:
             json.dump(ev, f, indent=1, default=str)
